@@ -10,7 +10,9 @@
 // Oracle (kit/oracle.go, independent of service/internal/graph): the multiset of deliveries
 // (exporter instance, tag, trail) equals the multiset over all configured paths; visits of
 // non-mutating components likewise; create-call counts per instance key; instance identity learnt
-// from unambiguous paths is a function of (pipeline, id) and injective; errors of failing exporters
+// from unambiguous paths is a function of (pipeline, id) and injective; a routing connector's data reaches
+// exactly the pipelines its route names (a fan-out over the listed consumers) and the router refuses the
+// route iff it is empty or names an unconnected pipeline; errors of failing exporters and refusing routers
 // reach the injecting receiver; invalid configurations make Run return an error and no Start is seen.
 package main
 
@@ -392,8 +394,9 @@ func runCase(c *driver.Ctx, class string, t *kit.Topology, rng *rand.Rand) {
 	c.Observe("connector_instances", int64(len(insts)))
 	for _, ci := range insts {
 		c.Distinct("connector_pairs_used", ci.From, ci.To)
-		if len(ci.Deliver) < len(ci.Dests) {
-			c.Observe("routing_connectors", 1)
+		if rc := routeClass(ci); rc != "broadcast" {
+			c.Observe("routing_instances:"+rc, 1)
+			c.Distinct("routing_cases", rc, ci.From, ci.To, ci.Mode, len(ci.Dests))
 		}
 	}
 	// every receiver instance exists and was injected
@@ -505,12 +508,56 @@ func runCase(c *driver.Ctx, class string, t *kit.Topology, rng *rand.Rand) {
 	if len(missing) == 0 && len(extra) == 0 {
 		checkInstances(c, t, ex, ds, w)
 	}
-	// errors of failing exporters reach the injector; without a reachable failing exporter no error
+	// routing connectors: the router refuses a route iff it is empty or names a pipeline the connector
+	// is not connected to (then nothing is forwarded: covered by the delivery multiset above)
+	gotR := map[string]int{}
+	for _, re := range env.RouteErrors() {
+		var tr []string
+		for _, e := range re.Trail {
+			s, _ := kit.StripInst(e)
+			tr = append(tr, s)
+		}
+		gotR[kit.DeliveryID(re.Key, re.Tag, tr)]++
+	}
+	c.Observe("route_refusals_expected", int64(sum(ex.RouteErrors)))
+	var rdiff []string
+	for k, n := range ex.RouteErrors {
+		if gotR[k] != n {
+			rdiff = append(rdiff, fmt.Sprintf("%s: router refusals expected %d got %d", k, n, gotR[k]))
+		}
+	}
+	for k, n := range gotR {
+		if _, ok := ex.RouteErrors[k]; !ok {
+			rdiff = append(rdiff, fmt.Sprintf("%s: router refusals expected 0 got %d", k, n))
+		}
+	}
+	if len(rdiff) > 0 {
+		sort.Strings(rdiff)
+		w.Unexpected = rdiff
+		kind := "refused-valid-route"
+		if sum(gotR) < sum(ex.RouteErrors) {
+			kind = "accepted-bad-route"
+		}
+		var routes []string
+		for _, ci := range insts {
+			if ci.Routing {
+				routes = append(routes, fmt.Sprintf("%s route %v (connected: %v, class %s)", ci.Key(), ci.Route, pipeIDs(t, ci.Dests), routeClass(ci)))
+			}
+		}
+		c.Violation("routing", fmt.Sprintf("router refusals differ from \"error iff the route is empty or names an unconnected pipeline\": %s; %s", rdiff[0], strings.Join(routes, "; ")), w,
+			"kind", kind, "connectors", hasConn)
+	}
+	// errors of failing exporters and of refusing routers reach the injector; otherwise no error
 	for tag, err := range o.injErr {
+		for _, k := range ex.RouteRefusals[tag] {
+			if err == nil || !strings.Contains(err.Error(), k+" cannot route") {
+				c.Violation("error-aggregation", fmt.Sprintf("the refusal of routing connector %s did not come back to receiver %s (got %v)", k, tag, err), w, "kind", "lost-route-error")
+			}
+		}
 		wantFail := ex.FailingReachable[tag]
 		if len(wantFail) == 0 {
-			if err != nil {
-				c.Violation("error-aggregation", fmt.Sprintf("injection %s returned %v although no failing exporter is reachable", tag, err), w, "kind", "spurious")
+			if err != nil && len(ex.RouteRefusals[tag]) == 0 {
+				c.Violation("error-aggregation", fmt.Sprintf("injection %s returned %v although no failing exporter or refusing router is reachable", tag, err), w, "kind", "spurious")
 			}
 			continue
 		}
@@ -526,6 +573,111 @@ func runCase(c *driver.Ctx, class string, t *kit.Topology, rng *rand.Rand) {
 	if depth >= 2 {
 		c.Sample(map[string]any{"class": class, "topology": t.Describe(), "expected_deliveries": sum(ex.Deliveries), "observed_deliveries": len(ds), "connector_instances": len(insts), "create_keys": len(want), "connector_chain_depth": depth})
 	}
+}
+
+// routeClass names what a connector instance asks its router for.
+func routeClass(ci kit.ConnInst) string {
+	switch {
+	case !ci.Routing:
+		return "broadcast"
+	case len(ci.Route) == 0:
+		return "empty"
+	case ci.RouteErr:
+		return "unconnected"
+	}
+	seen := map[string]bool{}
+	for _, r := range ci.Route {
+		if seen[r] {
+			return "repeated"
+		}
+		seen[r] = true
+	}
+	if len(ci.Route) == len(ci.Dests) {
+		return "full"
+	}
+	return "subset"
+}
+
+func pipeIDs(t *kit.Topology, idx []int) []string {
+	var out []string
+	for _, i := range idx {
+		out = append(out, t.Pipelines[i].ID())
+	}
+	return out
+}
+
+// addRouting appends a routing connector with N = 2..4 downstream pipelines to a valid base: one (or
+// two) source pipelines -> connector -> N pipelines of one destination signal (mostly the same
+// signal), with a route of the given class for that destination signal.
+func addRouting(rng *rand.Rand, base *kit.Topology, class string) *kit.Topology {
+	t := base.Clone()
+	s := kit.Signals[rng.Intn(4)]
+	d := s
+	typ := []string{"kconn", "ksame"}[rng.Intn(2)]
+	if rng.Intn(10) < 3 {
+		d = kit.Signals[rng.Intn(4)]
+		typ = "kconn"
+	}
+	id := typ + "/rt"
+	cfg := map[string]any{}
+	if s == d {
+		if m := []string{"", "mutate", "pass"}[rng.Intn(3)]; m != "" {
+			cfg["mode"] = m
+		}
+	}
+	t.Connectors[id] = cfg
+	procs := func() []string {
+		var out []string
+		for _, i := range rng.Perm(3)[:rng.Intn(3)] {
+			p := fmt.Sprintf("kproc/%c", 'a'+i)
+			if _, ok := t.Processors[p]; !ok {
+				t.Processors[p] = nil
+			}
+			out = append(out, p)
+		}
+		return out
+	}
+	exps := func() []string {
+		var out []string
+		for _, i := range rng.Perm(3)[:1+rng.Intn(2)] {
+			e := fmt.Sprintf("kexp/%d", i+1)
+			if _, ok := t.Exporters[e]; !ok {
+				t.Exporters[e] = nil
+			}
+			out = append(out, e)
+		}
+		return out
+	}
+	t.Receivers["krecv/1"] = nil
+	src := kit.Pipeline{Signal: s, Name: "rt_src", Receivers: []string{"krecv/1"}, Processors: procs(), Exporters: []string{id}}
+	if rng.Intn(2) == 0 {
+		src.Exporters = append(src.Exporters, exps()...)
+	}
+	t.Pipelines = append(t.Pipelines, src)
+	if typ == "kconn" && rng.Intn(3) == 0 { // a second instance of the connector (other source signal) shares the route
+		s2 := kit.Signals[rng.Intn(4)]
+		if s2 != s {
+			t.Receivers["krecv/2"] = nil
+			t.Pipelines = append(t.Pipelines, kit.Pipeline{Signal: s2, Name: "rt_src2", Receivers: []string{"krecv/2"}, Exporters: []string{id}})
+		}
+	}
+	for k, n := 0, 2+rng.Intn(3); k < n; k++ {
+		p := kit.Pipeline{Signal: d, Name: fmt.Sprintf("rt_d%d", k), Receivers: []string{id}, Processors: procs(), Exporters: exps()}
+		if rng.Intn(4) == 0 {
+			p.Receivers = append(p.Receivers, "krecv/1")
+		}
+		t.Pipelines = append(t.Pipelines, p)
+	}
+	if rng.Intn(2) == 0 { // a pipeline of the destination signal the connector is NOT connected to
+		t.Pipelines = append(t.Pipelines, kit.Pipeline{Signal: d, Name: "rt_other", Receivers: []string{"krecv/1"}, Exporters: exps()})
+	}
+	for _, ci := range t.ConnInstances() {
+		if ci.ID == id && ci.To == d {
+			cfg["routes"] = map[string]any{string(d): kit.MakeRoute(rng, class, t, ci)}
+			break
+		}
+	}
+	return t
 }
 
 func sum(m map[string]int) int {
@@ -583,9 +735,9 @@ func checkInstances(c *driver.Ctx, t *kit.Topology, ex *kit.Expectation, ds []*k
 }
 
 func run(c *driver.Ctx) {
-	n := int64(c.N(600, 50000)) // cases per shard
+	n := int64(c.N(600, 36000)) // cases per shard
 	if c.Variant == "race" {
-		n = int64(c.N(200, 6500))
+		n = int64(c.N(200, 4700))
 	}
 	for i := int64(0); i < n; i++ {
 		if !c.Want(i) {
@@ -605,9 +757,14 @@ func run(c *driver.Ctx) {
 		base := kit.GenTopology(rng, opt)
 		class := "valid"
 		t := base
-		if i%5 >= 3 { // 40 % invalid, classes in rotation
+		switch {
+		case i%5 >= 3: // 40 % invalid, classes in rotation
 			class = invalidClasses[(int(i/5)*2+int(i%5-3)+c.Shard)%len(invalidClasses)]
 			t = makeInvalid(rng, base, class)
+		case i%5 == 2: // 20 % carry a routing connector with 2–4 downstream pipelines, route classes in rotation
+			rc := kit.RouteClasses[(int(i/5)+c.Shard)%len(kit.RouteClasses)]
+			class = "routing-" + rc
+			t = addRouting(rng, base, rc)
 		}
 		runCase(c, class, t, rng)
 	}
@@ -617,7 +774,7 @@ func main() {
 	driver.Main(driver.Spec{
 		ID:    "C09",
 		Level: "exploration",
-		Rule: "a case is one seeded random service configuration (1–6 pipelines over the 4 signals, receivers/processors/exporters drawn from small id pools, kshared multi-signal receivers, connectors of 5 factory types with different supported signal pairs placed constructively incl. chains, fan-in, fan-out, routing; 40 % carry one injected defect: connector ring of length 1–4, back edge, unsupported pair, connector only as exporter/receiver) run through otelcol.NewCollector(...).Run with one payload injected at every receiver instance; " +
+		Rule: "a case is one seeded random service configuration (1–6 pipelines over the 4 signals, receivers/processors/exporters drawn from small id pools, kshared multi-signal receivers, connectors of 5 factory types with different supported signal pairs placed constructively incl. chains, fan-in, fan-out; 20 % carry a routing connector with 2–4 downstream pipelines that asks its router for a full / proper-subset / repeated-id (N entries) / unconnected-pipeline (N entries) / empty route; 40 % carry one injected defect: connector ring of length 1–4, back edge, unsupported pair, connector only as exporter/receiver) run through otelcol.NewCollector(...).Run with one payload injected at every receiver instance; " +
 			"distinct = canonical configuration (pipelines with component lists and referenced configs); non-trivial = at least 2 pipelines or a connector, or an invalid configuration",
 		Assumptions: []string{
 			"the reference model (lib/kit/oracle.go) computes validity, connector instances, path multisets, create counts from the configuration only; it shares no code with service/internal/graph",
@@ -631,7 +788,7 @@ func main() {
 		},
 		MinNontrivial: func(tier string) int {
 			if tier == "thorough" {
-				return 200000
+				return 150000
 			}
 			return 3000
 		},
